@@ -38,7 +38,15 @@ def shards(tier, seed):
     out.append({"id": "transport", "kind": "transport", "n": 1500 if tier == "quick" else 40000})
     out.append({"id": "lengths", "kind": "lengths", "n": 2000 if tier == "quick" else 60000})
     out.append({"id": "odd", "kind": "odd", "n": 2000 if tier == "quick" else 40000})
+    # conditions with codes of every range (vendor-specific ones too) once more in a process started with a bare environment (a
+    # system service, `env -i`): no HOME, no XDG_* / USER / LANG variables
+    out.append({"id": "out-of-descriptors", "kind": "nofd"})
+    out.append({"id": "grid-70-bare-env", "kind": "grid", "rc": 0x70, "keys": [2, 5, 6, 9], "ascqs": [0x00, 0x01, 0x80, 0xC3, 0xFF], "env": BARE_ENV})
+    out.append({"id": "lengths-bare-env", "kind": "lengths", "n": 600 if tier == "quick" else 6000, "env": BARE_ENV})
     return out
+
+
+BARE_ENV = {k: None for k in ("HOME", "XDG_CONFIG_HOME", "XDG_DATA_HOME", "XDG_CACHE_HOME", "USER", "LOGNAME", "LANG", "LC_ALL", "SHELL", "TERM", "TMPDIR", "PWD", "OLDPWD")}
 
 
 STATE = {"n": 0}
@@ -316,6 +324,29 @@ def run_transport(shard, ctx):
                          % ("CheckCondition", t, got, (rkey, rasc, rascq), len(buf)), wit)
             elif fmt is not None and (rasc, rascq) in ref.ASC and ref.norm(ref.ASC[(rasc, rascq)]) not in ref.norm(text):
                 ctx.fail("C08:transport.%s.text" % t, "%02X/%02X described as %r" % (rasc, rascq, text), wit)
+            # the binding reuses its sense buffer for the next command; a copy of the condition taken afterwards (to put it into a
+            # report, to send it to another process) says what the condition says
+            if j % 3 == 0:
+                import copy as _copy
+                import pickle as _pickle
+
+                for i in range(len(cur["sense"])):
+                    cur["sense"][i] = 0
+                for how, fn in (("copy.copy", _copy.copy), ("copy.deepcopy", _copy.deepcopy), ("pickle", lambda x: _pickle.loads(_pickle.dumps(x)))):
+                    try:
+                        dup = fn(exc)
+                    except Exception:  # noqa: BLE001
+                        ctx.count("transport_condition_copies_refused")  # (classes made at run time need not be picklable)
+                        continue
+                    ctx.count("transport_condition_copies")
+                    try:
+                        dgot = (dup.data.get("sense_key"), dup.asc, dup.ascq, str(dup))
+                    except Exception as e:  # noqa: BLE001
+                        dgot = ("raises", type(e).__name__)
+                    if dgot != (got[0], got[1], got[2], text):
+                        ctx.fail("C08:transport.%s.copy_differs" % t, "a %s of the CheckCondition raised over %s, taken after the binding reused its sense buffer, reports %r; the condition itself %r"
+                                 % (how, t, dgot[:3], got), wit)
+                        break
     for d in devs.values():
         d.close()
 
@@ -327,8 +358,61 @@ def run(shard, ctx):
 
     from vmon.spec import sense as ref
 
+    if shard.get("env"):
+        import os as _os
+
+        if _os.environ.get("HOME") is not None:
+            ctx.inconclusive_because("shard %s was to run without HOME in its environment" % shard["id"])
+            return
+        ctx.count("shards_run_in_a_bare_environment")
     rng = ctx.rng()
     kind = shard["kind"]
+    if kind == "nofd":
+        # the first conditions of the process are constructed and printed while the process cannot open anything (it is out of
+        # file descriptors -- just when devices fail en masse): reporting an error needs no file
+        import os
+        import resource
+
+        soft, hard = resource.getrlimit(resource.RLIMIT_NOFILE)
+        used = max(int(x) for x in os.listdir("/proc/self/fd")) + 1
+        bufs = [ref.build(rc, 0, key, asc, ascq, 18 if rc < 0x72 else 8) for rc in RCS for key, asc, ascq in ((6, 0x29, 0x00), (5, 0x24, 0x00), (4, 0x80, 0x81), (2, 0x04, 0x01))]
+        resource.setrlimit(resource.RLIMIT_NOFILE, (used + 2, hard))
+        results = []
+        filler = []
+        try:
+            while len(filler) < 64:
+                try:
+                    filler.append(os.open("/dev/null", os.O_RDONLY))  # the free numbers below the limit
+                except OSError:
+                    break
+            try:
+                open("/dev/null").close()
+                premise = False
+            except OSError:
+                premise = True
+            for b in bufs:
+                try:
+                    exc = mod.SCSICheckCondition(bytearray(b), print_data=False)
+                    results.append((b, None, str(exc), (exc.data.get("sense_key"), exc.asc, exc.ascq)))
+                except Exception as e:  # noqa: BLE001
+                    results.append((b, e, None, None))
+        finally:
+            for fd in filler:
+                os.close(fd)
+            resource.setrlimit(resource.RLIMIT_NOFILE, (soft, hard))
+        if not premise:
+            ctx.inconclusive_because("could not exhaust the file descriptors")
+            return
+        for b, e, text, vals in results:
+            fmt, _d, key, asc, ascq = ref.parse(b)
+            ctx.case(("nofd", bytes(b)), True)
+            ctx.count("conditions_reported_without_file_descriptors")
+            if e is not None:
+                ctx.fail("C08:construct_or_print_raises.out_of_file_descriptors", "with no file descriptor left, reporting sense %s raised %s: %s" % (bytes(b).hex(), type(e).__name__, e), {"sense": bytes(b)}, exc=e)
+                break
+            if vals != (key, asc, ascq):
+                ctx.fail("C08:values.out_of_file_descriptors", "reports %r, the sense says %r" % (vals, (key, asc, ascq)), {"sense": bytes(b)})
+        return
     if kind == "grid":
         rc = shard["rc"]
         i = 0
